@@ -185,6 +185,11 @@ CaptureCases == {
                                          <<Set("x", Bin("+", V("x"), V("a"))), Ret(FnE(<<P("b", WInt)>>, WInt, <<Ret(Bin("+", Bin("*", V("x"), I(10)), V("b")))>>))>>)),
                             Set("g", CallE(V("f"), <<H(2)>>)), Set("x", H(50)), CallE(V("g"), <<H(4)>>)>>, IntV(34)),
   Case("param-shadows-own-name", <<FnDecl("f", <<P("f", WInt)>>, WInt, <<Ret(V("f"))>>), CallE(V("f"), <<H(3)>>)>>, IntV(3)),
+  \* ... and the body USES the parameter as the int it is (directly, through an alias, from an iterator operator)
+  Case("param-shadows-own-name-used", <<FnDecl("twice", <<P("twice", WInt)>>, WInt, <<Ret(Bin("*", V("twice"), I(2)))>>),
+                                        Set("al", V("twice")),
+                                        TupE(<<CallE(V("twice"), <<H(4)>>), CallE(V("al"), <<H(5)>>),
+                                               RedE("$+", "int", MapE(IterE(ArrE(<<H(1), H(2)>>)), V("twice")))>>)>>, T3(8, 10, 6)),
   Case("param-shadows-outer", <<Set("a", H(1)), FnDecl("f", <<P("a", WInt)>>, WInt, <<Ret(V("a"))>>), TupE(<<CallE(V("f"), <<H(7)>>), V("a")>>)>>,
        TupV(<<IntV(7), IntV(1)>>)),
   \* a declaration becomes visible only after its whole initialiser was evaluated
